@@ -65,3 +65,18 @@ budget!(c10_authorize_time_budget, {
 budget!(c10_authorize_time_budget_max, {
     run_prologue(0, 1000, 1000, Duration::MAX, any_duration(1 << 35))
 });
+
+// time spent is cumulative: after authorize() the recorded time is at least what was recorded before
+budget!(c10_authorize_time_is_cumulative, {
+    let mut a = Authorizer::new();
+    let et = any_duration(1 << 30);
+    a.limits = AuthorizerLimits { max_facts: 1000, max_iterations: 1000, max_time: Duration::new(1 << 40, 0) };
+    a.execution_time = Some(et);
+    crate::kh_support::clock_reset();
+    let r = a.authorize();
+    let after = a.execution_time;
+    std::mem::forget(r);
+    std::mem::forget(a);
+    kani::cover!(matches!(after, Some(d) if d > et), "witness: the clock advanced during authorize()");
+    assert!(matches!(after, Some(d) if d >= et), "authorize() forgets the time already spent");
+});
